@@ -16,8 +16,8 @@ func init() {
 		ID:        "C18",
 		Run:       checkC18,
 		Technique: "static analysis: feasibility-pruned edge-guard reachability (phi-of-constants / repeated-condition correlation), value provenance of the gate condition through phis, locals and helper returns, who-may-call gating over static call sites and func-value sinks, wrapper-conn field provenance, disposal on all paths (go/ssa)",
-		Explanation: "R1 (credential gate + who may dial) every invoke of client.Client.TCP/UDP inside app/internal/socks5 and app/internal/http is reachable from the per-connection entry (the function go-started with Accept()'s result) only across an edge on which `AuthFunc == nil` holds or on which a value whose truth can only stem from a call of Server.AuthFunc is true (provenance followed through phis, locals and helper results; infeasible paths pruned by phi-of-constant correlation, e.g. serverMethod); a dial closure handed to net/http is followed to the Server field holding it and every use of that field must be gated; " +
-			"R2 (pipelined bytes behind CONNECT) the conn given to the CONNECT relay is the raw conn only on a fresh `bufReader.Buffered() <= 0` edge, otherwise a wrapper whose underlying conn is the raw conn, whose buffer is filled by io.ReadFull/bufio.Read from the same buffered reader into a slice of exactly Buffered() bytes, and whose Read touches the underlying conn only on the buffer-empty edge; the relay copies from that conn parameter to the dialled conn; " +
+		Explanation: "R1 (credential gate + who may dial) every invoke of client.Client.TCP/UDP inside app/internal/socks5 and app/internal/http is reachable from the per-connection entry (the function go-started with Accept()'s result) only across an edge on which `AuthFunc == nil` holds or on which a value whose truth can only stem from a call of Server.AuthFunc is true (provenance followed through phis, locals and helper results, including `helper() ==/!= K` where every return of the helper that can produce the fact is itself behind such an edge; infeasible paths pruned by phi-of-constant correlation, e.g. serverMethod); a dial closure handed to net/http is followed to the Server field holding it and every use of that field must be gated; " +
+			"R2 (pipelined bytes behind CONNECT) the conn given to the CONNECT relay is the raw conn only on a fresh `bufReader.Buffered() <= 0` edge, otherwise a wrapper whose underlying conn is the raw conn, whose buffer is filled by io.ReadFull/bufio.Read from the same buffered reader into a slice of exactly Buffered() bytes, and whose Read touches the underlying conn only on the buffer-empty edge; a helper returning the conn is inspected per return with its parameters mapped to the call's arguments (the reader must stay untouched between helper and relay); the relay copies from that conn parameter to the dialled conn; " +
 			"R3 (shared port) the mux dispatcher reads exactly one byte with io.ReadFull from the accepted conn, routes `byte == 5` to the SOCKS listener field and everything else to the HTTP listener field (loaded under the mux lock), hands over a wrapper carrying that very byte and the accepted conn whose Read returns the byte first, marks it consumed only when len(p) >= 1 and delegates only afterwards, and on every path to a return either the send case of the hand-over select was taken (exactly once, never followed by Close) or the conn was closed.",
 		NotDecided: []string{
 			"parsing done by txthinking/socks5 and net/http; that AuthFunc itself is right",
@@ -489,6 +489,9 @@ func (a *c18auth) okFact(v ssa.Value, pol bool) bool {
 			if k, ok := c18boolConst(x.X); ok {
 				return a.okFact(x.Y, ((x.Op == token.EQL) == k) == pol)
 			}
+			// `helper() == K` / `helper() != K`: a selection helper whose result
+			// stands for "AuthFunc is (not) set" (e.g. the negotiated method)
+			return a.cmpHelperOK(x, pol)
 		}
 		return false
 	case *ssa.Call:
@@ -643,6 +646,79 @@ func (a *c18auth) retOK(f *ssa.Function, idx int, pol bool) bool {
 			a.note(fmt.Sprintf("%s can return %v (`%s`) at %s without an accepted AuthFunc verdict on the path", fnName(f), pol, c18valStr(rv), a.p.InstrPos(r)))
 		}
 		ok = false
+	})
+	return ok && n > 0
+}
+
+// cmpHelperOK: x is `h(...) == K` or `h(...) != K` with h a repository helper
+// and K a non-bool constant.  The fact `x == pol` authorises when every return
+// of h whose result can make the comparison come out as pol is itself behind an
+// authorising edge inside h (`if s.AuthFunc != nil { return A }; return B`:
+// `h() != A` implies AuthFunc == nil).
+func (a *c18auth) cmpHelperOK(x *ssa.BinOp, pol bool) bool {
+	var k constant.Value
+	var other ssa.Value
+	if kc, ok := x.Y.(*ssa.Const); ok && kc.Value != nil {
+		k, other = kc.Value, x.X
+	} else if kc, ok := x.X.(*ssa.Const); ok && kc.Value != nil {
+		k, other = kc.Value, x.Y
+	} else {
+		return false
+	}
+	if k.Kind() != constant.Int && k.Kind() != constant.String {
+		return false
+	}
+	var f *ssa.Function
+	idx := 0
+	switch y := resolve(other).(type) {
+	case *ssa.Call:
+		f = y.Common().StaticCallee()
+		if f != nil && f.Signature.Results().Len() != 1 {
+			return false
+		}
+	case *ssa.Extract:
+		if call, ok := y.Tuple.(*ssa.Call); ok {
+			f, idx = call.Common().StaticCallee(), y.Index
+		}
+	}
+	if f == nil || !a.p.IsRepoFn(f) || len(f.Blocks) == 0 {
+		return false
+	}
+	wantEq := (x.Op == token.EQL) == pol // the fact says: result == K is wantEq
+	n := 0
+	ok := true
+	var leaf func(v ssa.Value, guarded func() bool, depth int)
+	leaf = func(v ssa.Value, guarded func() bool, depth int) {
+		if !ok {
+			return
+		}
+		if ph, isPhi := v.(*ssa.Phi); isPhi && depth < 4 {
+			for i, e := range ph.Edges {
+				from, to := ph.Block().Preds[i], ph.Block()
+				leaf(e, func() bool { return guarded() || a.edgeGuarded(from, to) }, depth+1)
+			}
+			return
+		}
+		if kc, isC := v.(*ssa.Const); isC && kc.Value != nil && kc.Value.Kind() == k.Kind() {
+			if constant.Compare(kc.Value, token.EQL, k) != wantEq {
+				return // this result can never produce the fact
+			}
+		}
+		if !guarded() {
+			ok = false
+		}
+	}
+	allInstrs(f, func(in ssa.Instruction) {
+		r, isRet := in.(*ssa.Return)
+		if !isRet || !ok {
+			return
+		}
+		res := retResults(r)
+		if res == nil || idx >= len(res) {
+			return
+		}
+		n++
+		leaf(res[idx], func() bool { return a.instrGuarded(r) }, 0)
 	})
 	return ok && n > 0
 }
@@ -993,6 +1069,7 @@ type c18obj struct {
 	vals  map[*types.Var]ssa.Value // field -> value stored at construction (call arguments substituted for constructor parameters)
 	multi map[*types.Var]bool
 	subst func(ssa.Value) ssa.Value // constructor parameter -> call argument
+	ctor  *ssa.Call                 // the constructor call (nil: composite literal at the site)
 }
 
 // depsAcross: backward slice of a stored value, continued in the caller for
@@ -1016,11 +1093,13 @@ func (o *c18obj) depsAcross(v ssa.Value) map[ssa.Value]bool {
 func c18freshObj(p *Prog, v ssa.Value) *c18obj {
 	v = resolve(v)
 	subst := func(x ssa.Value) ssa.Value { return x }
+	var ctor *ssa.Call
 	if call, ok := v.(*ssa.Call); ok {
 		f := call.Common().StaticCallee()
 		if f == nil || !p.IsRepoFn(f) || len(f.Blocks) == 0 {
 			return nil
 		}
+		ctor = call
 		var ret ssa.Value
 		n := 0
 		allInstrs(f, func(in ssa.Instruction) {
@@ -1055,7 +1134,7 @@ func c18freshObj(p *Prog, v ssa.Value) *c18obj {
 	if _, isStruct := T.Underlying().(*types.Struct); !isStruct {
 		return nil
 	}
-	o := &c18obj{alloc: al, T: T, vals: map[*types.Var]ssa.Value{}, multi: map[*types.Var]bool{}, subst: subst}
+	o := &c18obj{alloc: al, T: T, vals: map[*types.Var]ssa.Value{}, multi: map[*types.Var]bool{}, subst: subst, ctor: ctor}
 	for _, r := range *al.Referrers() {
 		fa, ok := r.(*ssa.FieldAddr)
 		if !ok {
@@ -1229,20 +1308,22 @@ func c18R2(c *Check) {
 				c.Undecided("C18.R2:site:"+site, r2, p.InstrPos(ci), "no bufio reader in the caller: cannot tell what was read ahead")
 				continue
 			}
-			isBuffered := func(v ssa.Value, rd ssa.Value) *ssa.Call {
+			// isRd says whether a value of the function under inspection denotes the
+			// request reader (identity in g, parameters mapped to arguments in a helper)
+			isBuffered := func(v ssa.Value, isRd func(ssa.Value) bool) *ssa.Call {
 				call, ok := resolve(v).(*ssa.Call)
 				if !ok {
 					return nil
 				}
-				if recv, ok := methodCallNamed(call, "Buffered"); ok && resolve(recv) == rd {
+				if recv, ok := methodCallNamed(call, "Buffered"); ok && isRd(recv) {
 					return call
 				}
 				return nil
 			}
 			// a Buffered() value is fresh at `use` when no other call touches the
 			// reader on a path from the Buffered() call (its block not re-entered) to use
-			fresh := func(bc *ssa.Call, rd ssa.Value, use ssa.Instruction) bool {
-				w := c18walk(g, bc, nil, func(in ssa.Instruction) bool { return in == use }, bc.Block())
+			fresh := func(F *ssa.Function, bc ssa.Instruction, isRd func(ssa.Value) bool, use ssa.Instruction) bool {
+				w := c18walk(F, bc, nil, func(in ssa.Instruction) bool { return in == use }, bc.Block())
 				if !w.instrs[use] {
 					return false
 				}
@@ -1256,9 +1337,9 @@ func c18R2(c *Check) {
 						continue
 					}
 					for _, a := range call.Common().Args {
-						if resolve(a) == rd {
+						if isRd(a) {
 							// only matters if `use` is still reachable afterwards
-							if c18walk(g, in, nil, func(x ssa.Instruction) bool { return x == use }, bc.Block()).instrs[use] {
+							if c18walk(F, in, nil, func(x ssa.Instruction) bool { return x == use }, bc.Block()).instrs[use] {
 								okF = false
 							}
 						}
@@ -1266,21 +1347,92 @@ func c18R2(c *Check) {
 				}
 				return okF
 			}
-			// one source per phi edge of the argument
+			// one source per phi edge of the argument; a helper that returns the
+			// conn (`cc, err := wrapBuffered(conn, rd)`) contributes one source per
+			// return, inspected inside the helper with its parameters mapped to
+			// the arguments of the call
 			type asrc struct {
 				v        ssa.Value
-				from, to *ssa.BasicBlock
+				F        *ssa.Function             // function computing v: g or a helper called by g
+				from, to *ssa.BasicBlock           // phi edge of F selecting v (nil: at)
+				at       ssa.Instruction           // where v is used in F: the relay call / the helper's return
+				call     *ssa.Call                 // F != g: the helper call in g
+				inG      func(ssa.Value) ssa.Value // value of F -> resolved value of g
 			}
-			srcs := []asrc{{arg, nil, nil}}
-			if ph, ok := arg.(*ssa.Phi); ok {
-				srcs = nil
-				for i, e := range ph.Edges {
-					srcs = append(srcs, asrc{e, ph.Block().Preds[i], ph.Block()})
+			var srcs []asrc
+			var addSrc func(s asrc, depth int)
+			addSrc = func(s asrc, depth int) {
+				if ph, ok := s.v.(*ssa.Phi); ok && depth < 4 {
+					for i, e := range ph.Edges {
+						s2 := s
+						s2.v, s2.from, s2.to = e, ph.Block().Preds[i], ph.Block()
+						addSrc(s2, depth+1)
+					}
+					return
 				}
+				srcs = append(srcs, s)
 			}
-			for _, src := range srcs {
+			addSrc(asrc{v: arg, F: g, at: ci, inG: resolve}, 0)
+			// helperSrcs: v is the (idx-th) result of a repository helper called in g
+			helperSrcs := func(v ssa.Value, key string) bool {
+				var call *ssa.Call
+				idx := 0
+				switch x := resolve(v).(type) {
+				case *ssa.Call:
+					call = x
+				case *ssa.Extract:
+					call, _ = x.Tuple.(*ssa.Call)
+					idx = x.Index
+				}
+				if call == nil || call.Parent() != g {
+					return false
+				}
+				f := call.Common().StaticCallee()
+				if f == nil || f == relay || !p.IsRepoFn(f) || len(f.Blocks) == 0 {
+					return false
+				}
+				args := call.Common().Args
+				inG := func(x ssa.Value) ssa.Value {
+					rx := resolve(x)
+					for i, prm := range f.Params {
+						if rx == ssa.Value(prm) && i < len(args) {
+							return resolve(args[i])
+						}
+					}
+					return rx
+				}
+				n := 0
+				allInstrs(f, func(in ssa.Instruction) {
+					r, ok := in.(*ssa.Return)
+					if !ok {
+						return
+					}
+					res := retResults(r)
+					if idx >= len(res) {
+						return
+					}
+					n++
+					if isNilConst(res[idx]) {
+						// `return nil, err`: no conn at all; the error result tells the caller
+						for j, o := range res {
+							if j != idx && !isNilConst(o) && types.Identical(o.Type(), types.Universe.Lookup("error").Type()) {
+								return
+							}
+						}
+						c.Undecided(key+":nil-conn", r2, p.InstrPos(r), "the helper can return a nil conn without an error")
+						return
+					}
+					addSrc(asrc{v: res[idx], F: f, at: r, call: call, inG: inG}, 0)
+				})
+				if n > 0 {
+					c.Saw(fnName(f))
+				}
+				return n > 0
+			}
+			for qi := 0; qi < len(srcs); qi++ {
+				src := srcs[qi]
 				arg := src.v
-				rarg := resolve(arg)
+				rarg := src.inG(arg)
 				var rawOf *br
 				for i := range brs {
 					if brs[i].raw == rarg {
@@ -1293,35 +1445,43 @@ func c18R2(c *Check) {
 					rawN[g]++
 					key := "C18.R2:raw-conn-only-when-drained:" + site + ord(rawN[g])
 					rd := rawOf.rd
-					w := c18walk(g, nil, func(cond ssa.Value, pol bool) bool {
+					isRdF := func(x ssa.Value) bool { return src.inG(x) == rd }
+					use := src.at
+					if src.from != nil { // the value is chosen when the phi edge is taken
+						use = src.from.Instrs[len(src.from.Instrs)-1]
+					}
+					w := c18walk(src.F, nil, func(cond ssa.Value, pol bool) bool {
 						var bc *ssa.Call
 						_, hi, ok := c18cmpRange(cond, pol, func(x ssa.Value) bool {
-							if b := isBuffered(x, rd); b != nil {
+							if b := isBuffered(x, isRdF); b != nil {
 								bc = b
 								return true
 							}
 							return false
 						})
-						use := ssa.Instruction(ci)
-						if src.from != nil { // the value is chosen when the phi edge is taken
-							use = src.from.Instrs[len(src.from.Instrs)-1]
-						}
-						return ok && hi <= 0 && bc != nil && fresh(bc, rd, use)
+						return ok && hi <= 0 && bc != nil && fresh(src.F, bc, isRdF, use)
 					}, nil, nil)
-					reached := w.instrs[ci]
+					reached := w.instrs[src.at]
 					if src.from != nil {
 						reached = w.edges[c18edge{src.from, src.to}]
+					}
+					if !reached && src.call != nil {
+						// nothing may read from the reader between the helper and the relay
+						reached = !fresh(g, src.call, func(x ssa.Value) bool { return resolve(x) == rd }, ci)
 					}
 					c.Req(!reached, key, r2, p.InstrPos(ci), "the raw connection is handed to the CONNECT relay on a path where the request reader may still hold bytes read ahead (no fresh `Buffered() == 0` edge): bytes pipelined behind the CONNECT header are dropped")
 					continue
 				}
 				// (2) wrapper
+				o := c18freshObj(p, arg)
+				if o == nil && src.F == g && helperSrcs(arg, "C18.R2:wrapper:"+site) {
+					continue // inspected per return of the helper
+				}
 				nWrap++
 				wrapN[g]++
 				key := "C18.R2:wrapper:" + site + ord(wrapN[g])
-				o := c18freshObj(p, arg)
 				if o == nil {
-					c.Undecided(key, r2, p.InstrPos(ci), "the conn given to the relay is neither the raw conn nor a wrapper built here or by a one-level constructor")
+					c.Undecided(key, r2, p.InstrPos(ci), "the conn given to the relay is neither the raw conn nor a wrapper built here, by a one-level constructor or by a helper returning it")
 					continue
 				}
 				rdFn := c18ownRead(p, o.T)
@@ -1338,7 +1498,7 @@ func c18R2(c *Check) {
 				var rd ssa.Value
 				uv := o.vals[underF]
 				for i := range brs {
-					if uv != nil && resolve(uv) == brs[i].raw {
+					if uv != nil && src.inG(uv) == brs[i].raw {
 						rd = brs[i].rd
 					}
 				}
@@ -1349,11 +1509,42 @@ func c18R2(c *Check) {
 				bv := o.vals[bufF]
 				var fill *ssa.Call
 				var data *ssa.MakeSlice
+				var isRdFill func(ssa.Value) bool
 				unknownFill := ""
+				// what denotes the request reader inside function F2 (g, the helper, the constructor)
+				isRdIn := func(F2 *ssa.Function) func(ssa.Value) bool {
+					switch {
+					case F2 == g:
+						return func(x ssa.Value) bool { return resolve(x) == rd }
+					case F2 == src.F:
+						return func(x ssa.Value) bool { return src.inG(x) == rd }
+					case o.ctor != nil && F2 == o.ctor.Common().StaticCallee():
+						return func(x ssa.Value) bool { return src.inG(o.subst(x)) == rd }
+					}
+					return nil
+				}
 				if bv != nil {
-					for d := range o.depsAcross(bv) {
+					depset := o.depsAcross(bv)
+					if src.F != g {
+						var more []ssa.Value
+						for d := range depset {
+							if prm, ok := d.(*ssa.Parameter); ok && prm.Parent() == src.F {
+								more = append(more, src.inG(prm))
+							}
+						}
+						for _, m := range more {
+							for d2 := range deps(m, depOpts{throughCalls: true}) {
+								depset[d2] = true
+							}
+						}
+					}
+					for d := range depset {
 						ms, ok := d.(*ssa.MakeSlice)
 						if !ok {
+							continue
+						}
+						isRd2 := isRdIn(ms.Parent())
+						if isRd2 == nil {
 							continue
 						}
 						for _, r := range *ms.Referrers() {
@@ -1362,13 +1553,13 @@ func c18R2(c *Check) {
 								continue
 							}
 							switch {
-							case calleeIs(call, "io", "ReadFull") && resolve(call.Call.Args[0]) == rd && call.Call.Args[1] == ssa.Value(ms):
-								fill, data = call, ms
-							case calleeIs(call, "bufio", "(*Reader).Read") && resolve(call.Call.Args[0]) == rd && call.Call.Args[1] == ssa.Value(ms):
-								fill, data = call, ms
+							case calleeIs(call, "io", "ReadFull") && isRd2(call.Call.Args[0]) && call.Call.Args[1] == ssa.Value(ms):
+								fill, data, isRdFill = call, ms, isRd2
+							case calleeIs(call, "bufio", "(*Reader).Read") && isRd2(call.Call.Args[0]) && call.Call.Args[1] == ssa.Value(ms):
+								fill, data, isRdFill = call, ms, isRd2
 							default:
 								for _, a := range call.Call.Args {
-									if resolve(a) == rd {
+									if isRd2(a) {
 										unknownFill = fnName(staticCallee(call))
 									}
 								}
@@ -1396,16 +1587,26 @@ func c18R2(c *Check) {
 					}
 					return ci
 				}()
-				if storeOf.Parent() != g {
-					storeOf = ci
-					if cc, ok := resolve(arg).(*ssa.Call); ok && cc.Parent() == g {
-						storeOf = cc // the constructor call
+				// the construction as seen from the function that fills the slice: the
+				// store itself, else the constructor call, the helper call, the use
+				F2 := fill.Parent()
+				var anchor ssa.Instruction
+				for _, cand := range []ssa.Instruction{storeOf, o.ctor, src.call, src.at, ci} {
+					if cand == nil {
+						continue
+					}
+					if v, isV := cand.(*ssa.Call); isV && v == nil {
+						continue
+					}
+					if cand.Parent() == F2 {
+						anchor = cand
+						break
 					}
 				}
-				okDom := fill.Parent() == g && (dominates(fill, storeOf) || dominates(fill, ci))
+				okDom := anchor != nil && (dominates(fill, anchor) || (F2 == g && dominates(fill, ci)))
 				c.Req(okDom, key+":filled", r2, p.InstrPos(fill), "the read from the request reader does not precede the construction of the wrapper on every path")
-				bc := isBuffered(data.Len, rd)
-				okLen := bc != nil && fresh(bc, rd, fill)
+				bc := isBuffered(data.Len, isRdFill)
+				okLen := bc != nil && fresh(F2, bc, isRdFill, fill)
 				c.Req(okLen, key+":length", r2, p.InstrPos(data), "the slice moved into the wrapper is not exactly a fresh Buffered() of the request reader long (too short drops or reorders pipelined bytes, stale counts bytes of the header)")
 			}
 		}
